@@ -803,40 +803,69 @@ package xpath
 //@ define built(q, err) = err == nil ==> q != nil && !is(q, nopQuery)
 
 //@ func (*builder).processNode
-//@   props C15
+//@   props C15 C06 C17
+//@   requires[depth@C06] 0 <= b.parseDepth && b.parseDepth <= 1024
+//@   maypanic
+//@   decreases 1024 - b.parseDepth, 0
+//@   ensures[depth-restored@C06] err == nil ==> b.parseDepth == old(b.parseDepth)
 //@   preserves heap(F:*Node.*), heap(S:query)      // the builder never writes the parse tree nor argument lists it did not create
 //@   ensures[wf@C15] built(q, err)
 //@ func (*builder).processAxis
-//@   props C15
+//@   props C15 C06 C17
+//@   requires[depth@C06] 0 <= b.parseDepth && b.parseDepth <= 1024
+//@   maypanic
+//@   decreases 1024 - b.parseDepth, 1
+//@   ensures[depth-restored@C06] result1 == nil ==> b.parseDepth == old(b.parseDepth)
 //@   preserves heap(F:*Node.*), heap(S:query)      // the builder never writes the parse tree nor argument lists it did not create
 //@   requires root != nil
 //@   ensures[wf@C15] built(result0, result1)
 //@ func (*builder).processFilter
-//@   props C15
+//@   props C15 C06 C17
+//@   requires[depth@C06] 0 <= b.parseDepth && b.parseDepth <= 1024
+//@   maypanic
+//@   decreases 1024 - b.parseDepth, 1
+//@   ensures[depth-restored@C06] result1 == nil ==> b.parseDepth == old(b.parseDepth)
 //@   preserves heap(F:*Node.*), heap(S:query)      // the builder never writes the parse tree nor argument lists it did not create
 //@   requires root != nil
 //@   ensures[wf@C15] built(result0, result1)
 //@ func (*builder).processFunction
-//@   props C15
+//@   props C15 C06 C17
+//@   requires[depth@C06] 0 <= b.parseDepth && b.parseDepth <= 1024
+//@   maypanic
+//@   decreases 1024 - b.parseDepth, 1
+//@   ensures[depth-restored@C06] result1 == nil ==> b.parseDepth == old(b.parseDepth)
 //@   preserves heap(F:*Node.*), heap(S:query)      // the builder never writes the parse tree nor argument lists it did not create
 //@   loop 0 invariant elemsNonNil(args)
 //@   loop 0 invariant args == nil || isFresh(args)
 //@   requires root != nil
 //@   ensures[wf@C15] built(result0, result1)
+//@   loop 0 invariant[depth@C06] b.parseDepth == old(b.parseDepth)
 //@ func (*builder).processOperator
-//@   props C15
+//@   props C15 C06 C17
+//@   requires[depth@C06] 0 <= b.parseDepth && b.parseDepth <= 1024
+//@   maypanic
+//@   decreases 1024 - b.parseDepth, 1
+//@   ensures[depth-restored@C06] result1 == nil ==> b.parseDepth == old(b.parseDepth)
 //@   preserves heap(F:*Node.*), heap(S:query)      // the builder never writes the parse tree nor argument lists it did not create
 //@   requires root != nil
 //@   ensures[wf@C15] built(result0, result1)
 //@ func build
 //@   props C15 C06
+//@   nopanic
 //@   ensures[wf@C15] built(q, err)
+//@   ensures[total@C06] err != nil || q != nil
 //@ func Compile
 //@   props C15 C06
+//@   nopanic
+//@   ensures[one-of@C06] (result0 != nil && result1 == nil && result0.q != nil) || (result0 == nil && result1 != nil)
 //@ func CompileWithNS
 //@   props C15 C06
+//@   nopanic
+//@   ensures[one-of@C06] (result0 != nil && result1 == nil && result0.q != nil) || (result0 == nil && result1 != nil)
 //@ func MustCompile
 //@   props C15 C06
+//@   nopanic
+//@   ensures[never-nil@C06] result != nil && result.q != nil
 //@ func axisPredicate
 //@   props C15 C14
 //@   requires root != nil
@@ -915,25 +944,84 @@ package xpath
 //@   modifies nothing
 //@   ensures result != nil
 //@ func (*parser).parseOrExpr
-//@   props C15 C10
+//@   props C06 C10 C17 C15
+//@   requires[depth@C06] p != nil && 0 <= p.d && p.d <= 200
+//@   maypanic
+//@   modifies heap(F:scanner.*), p.d
+//@   decreases 200 - p.d, 20
+//@   ensures[depth-restored@C06] p.d == old(p.d)
+//@   loop 0 invariant[depth@C06] p.d == old(p.d)
 //@ func (*parser).parseAndExpr
-//@   props C15 C10
+//@   props C06 C10 C17 C15
+//@   requires[depth@C06] p != nil && 0 <= p.d && p.d <= 200
+//@   maypanic
+//@   modifies heap(F:scanner.*), p.d
+//@   decreases 200 - p.d, 19
+//@   ensures[depth-restored@C06] p.d == old(p.d)
+//@   loop 0 invariant[depth@C06] p.d == old(p.d)
 //@ func (*parser).parseEqualityExpr
-//@   props C15 C10
+//@   props C06 C10 C17 C15
+//@   requires[depth@C06] p != nil && 0 <= p.d && p.d <= 200
+//@   maypanic
+//@   modifies heap(F:scanner.*), p.d
+//@   decreases 200 - p.d, 18
+//@   ensures[depth-restored@C06] p.d == old(p.d)
+//@   loop 0 invariant[depth@C06] p.d == old(p.d)
 //@ func (*parser).parseRelationalExpr
-//@   props C15 C10
+//@   props C06 C10 C17 C15
+//@   requires[depth@C06] p != nil && 0 <= p.d && p.d <= 200
+//@   maypanic
+//@   modifies heap(F:scanner.*), p.d
+//@   decreases 200 - p.d, 17
+//@   ensures[depth-restored@C06] p.d == old(p.d)
+//@   loop 0 invariant[depth@C06] p.d == old(p.d)
 //@ func (*parser).parseAdditiveExpr
-//@   props C15 C10
+//@   props C06 C10 C17 C15
+//@   requires[depth@C06] p != nil && 0 <= p.d && p.d <= 200
+//@   maypanic
+//@   modifies heap(F:scanner.*), p.d
+//@   decreases 200 - p.d, 16
+//@   ensures[depth-restored@C06] p.d == old(p.d)
+//@   loop 0 invariant[depth@C06] p.d == old(p.d)
 //@ func (*parser).parseMultiplicativeExpr
-//@   props C15 C10
+//@   props C06 C10 C17 C15
+//@   requires[depth@C06] p != nil && 0 <= p.d && p.d <= 200
+//@   maypanic
+//@   modifies heap(F:scanner.*), p.d
+//@   decreases 200 - p.d, 15
+//@   ensures[depth-restored@C06] p.d == old(p.d)
+//@   loop 0 invariant[depth@C06] p.d == old(p.d)
 //@ func (*parser).parseUnaryExpr
-//@   props C15 C10
+//@   props C06 C10 C17 C15
+//@   requires[depth@C06] p != nil && 0 <= p.d && p.d <= 200
+//@   maypanic
+//@   modifies heap(F:scanner.*), p.d
+//@   decreases 200 - p.d, 14
+//@   ensures[depth-restored@C06] p.d == old(p.d)
+//@   loop 0 invariant[depth@C06] p.d == old(p.d)
 //@ func (*parser).parseUnionExpr
-//@   props C15 C10
+//@   props C06 C10 C17 C15
+//@   requires[depth@C06] p != nil && 0 <= p.d && p.d <= 200
+//@   maypanic
+//@   modifies heap(F:scanner.*), p.d
+//@   decreases 200 - p.d, 13
+//@   ensures[depth-restored@C06] p.d == old(p.d)
+//@   loop 0 invariant[depth@C06] p.d == old(p.d)
 //@ func (*parser).parseSequence
-//@   props C15 C10
+//@   props C06 C10 C17 C15
+//@   requires[depth@C06] p != nil && 0 <= p.d && p.d <= 200
+//@   maypanic
+//@   modifies heap(F:scanner.*), p.d
+//@   decreases 200 - p.d, 1
+//@   ensures[depth-restored@C06] p.d == old(p.d)
+//@   loop 0 invariant[depth@C06] p.d == old(p.d) + 1
 //@ func (*parser).parsePrimaryExpr
-//@   props C15 C10
+//@   props C06 C10 C17 C15
+//@   requires[depth@C06] p != nil && 0 <= p.d && p.d <= 200
+//@   maypanic
+//@   modifies heap(F:scanner.*), p.d
+//@   decreases 200 - p.d, 10
+//@   ensures[depth-restored@C06] p.d == old(p.d)
 
 // ---------------------------------------------------------------------------
 // The regexp cache (cache.go). The cache is shared between goroutines: its map
@@ -1186,3 +1274,144 @@ package xpath
 //@   modifies nothing
 //@   ensures[fresh-iterator@C04,C05] result != nil && isFresh(result) && result.query != nil && (isFresh(result.query) || is(result.query, *constantQuery) || is(result.query, nopQuery)) && result.node == root
 //@   ensures[shared-tree-untouched@C04,C05] stateless(expr.q) || k(expr.q) == old(k(expr.q)) && epoch(expr.q) == old(epoch(expr.q))
+
+// ---------------------------------------------------------------------------
+// C06: Compile is total. (1) build() converts every panic of parse/processNode into an
+// error (defer/recover modelled; callees marked maypanic). (2) Every function on a call
+// cycle of parse.go / build.go carries a recursion measure `decreases A, B` (lexicographic,
+// both components non-negative and bounded): the callee's measure is smaller at every call,
+// which bounds the depth of the Go stack by (limit+1) * (ranks+1) frames.
+//@ func (*parser).parseExpression
+//@   props C06 C10 C17
+//@   requires[depth@C06] p != nil && 0 <= p.d && p.d <= 200
+//@   maypanic
+//@   modifies heap(F:scanner.*), p.d
+//@   decreases 200 - p.d, 0
+//@   ensures[depth-restored@C06] p.d == old(p.d)
+//@ func (*parser).parsePathExpr
+//@   props C06 C10 C17
+//@   requires[depth@C06] p != nil && 0 <= p.d && p.d <= 200
+//@   maypanic
+//@   modifies heap(F:scanner.*), p.d
+//@   decreases 200 - p.d, 12
+//@   ensures[depth-restored@C06] p.d == old(p.d)
+//@ func (*parser).parseFilterExpr
+//@   props C06 C10 C17
+//@   requires[depth@C06] p != nil && 0 <= p.d && p.d <= 200
+//@   maypanic
+//@   modifies heap(F:scanner.*), p.d
+//@   decreases 200 - p.d, 11
+//@   ensures[depth-restored@C06] p.d == old(p.d)
+//@ func (*parser).parseMethod
+//@   props C06 C10 C17
+//@   requires[depth@C06] p != nil && 0 <= p.d && p.d <= 200
+//@   maypanic
+//@   modifies heap(F:scanner.*), p.d
+//@   decreases 200 - p.d, 9
+//@   ensures[depth-restored@C06] p.d == old(p.d)
+//@   loop 0 invariant[depth@C06] p.d == old(p.d)
+//@   loop 0 invariant[fresh-args@C06] args == nil || isFresh(args)
+//@ func (*parser).parsePredicate
+//@   props C06 C10 C17
+//@   requires[depth@C06] p != nil && 0 <= p.d && p.d <= 200
+//@   maypanic
+//@   modifies heap(F:scanner.*), p.d
+//@   decreases 200 - p.d, 5
+//@   ensures[depth-restored@C06] p.d == old(p.d)
+//@ func (*parser).parseLocationPath
+//@   props C06 C10 C17
+//@   requires[depth@C06] p != nil && 0 <= p.d && p.d <= 200
+//@   maypanic
+//@   modifies heap(F:scanner.*), p.d
+//@   decreases 200 - p.d, 11
+//@   ensures[depth-restored@C06] p.d == old(p.d)
+//@ func (*parser).parseRelativeLocationPath
+//@   props C06 C10 C17
+//@   requires[depth@C06] p != nil && 0 <= p.d && p.d <= 200
+//@   maypanic
+//@   modifies heap(F:scanner.*), p.d
+//@   decreases 200 - p.d, 10
+//@   ensures[depth-restored@C06] p.d == old(p.d)
+//@   loop 0 invariant[depth@C06] p.d == old(p.d)
+//@ func (*parser).parseStep
+//@   props C06 C10 C17
+//@   requires[depth@C06] p != nil && 0 <= p.d && p.d <= 200
+//@   maypanic
+//@   modifies heap(F:scanner.*), p.d
+//@   decreases 200 - p.d, 9
+//@   ensures[depth-restored@C06] p.d == old(p.d)
+//@   loop 0 invariant[depth@C06] p.d == old(p.d)
+//@ func (*parser).parseNodeTest
+//@   props C06 C10 C17
+//@   requires[depth@C06] p != nil && 0 <= p.d && p.d <= 200
+//@   maypanic
+//@   modifies heap(F:scanner.*), p.d
+//@   decreases 200 - p.d, 0
+//@   ensures[depth-restored@C06] p.d == old(p.d)
+//@ func (*parser).next
+//@   props C06
+//@   requires p != nil
+//@   maypanic
+//@   modifies heap(F:scanner.*)
+//@ func (*parser).skipItem
+//@   props C06
+//@   requires p != nil
+//@   maypanic
+//@   modifies heap(F:scanner.*)
+//@ func (*scanner).nextChar
+//@   props C06
+//@   maypanic
+//@   modifies heap(F:scanner.*)
+//@ func (*scanner).nextItem
+//@   props C06
+//@   maypanic
+//@   modifies heap(F:scanner.*)
+//@ func (*scanner).skipSpace
+//@   props C06
+//@   maypanic
+//@   modifies heap(F:scanner.*)
+//@ func (*scanner).scanFraction
+//@   props C06
+//@   maypanic
+//@   modifies heap(F:scanner.*)
+//@ func (*scanner).scanNumber
+//@   props C06
+//@   maypanic
+//@   modifies heap(F:scanner.*)
+//@ func (*scanner).scanString
+//@   props C06
+//@   maypanic
+//@   modifies heap(F:scanner.*)
+//@ func (*scanner).scanName
+//@   props C06
+//@   maypanic
+//@   modifies heap(F:scanner.*)
+//@ func checkItem
+//@   props C06
+//@   maypanic
+//@   modifies nothing
+//@ func parse
+//@   props C06
+//@   maypanic
+//@ func isPrimaryExpr
+//@   props C06
+//@   modifies nothing
+//@ func isNodeType
+//@   props C06
+//@   modifies nothing
+//@ func isStep
+//@   props C06
+//@   modifies nothing
+//@ func testOp
+//@   props C06
+//@   modifies nothing
+//@ func isName
+//@   props C06
+//@   modifies nothing
+//@ func isDigit
+//@   props C06
+//@   modifies nothing
+//@ func asItemType
+//@   props C06
+//@   maypanic
+//@   modifies nothing
